@@ -79,7 +79,7 @@ LEVEL_NOTE = ('Trusted: CPython tracebacks, sys.settrace reachability, the conve
 
 _KEEP = []
 EXCL = ('no_all_branch_rebind_in_nested_block', 'no_handler_only_binding', 'no_try_else', 'no_for_target_rebind',
-        'no_lambda_capture_across_rebind', 'no_impure_chain_middle', 'no_jump_in_handler_with_finally')
+        'no_lambda_capture_across_rebind', 'no_impure_chain_middle')
 # shapes of C12 findings, excluded by construction (each redirected draw is counted)
 # FC12a, FC12e and FC12f were repaired in /repo (fix: commits): their shapes are generated again
 C12_EXCL = ('no_recursive_link', 'no_failing_def_header', 'no_arity_error_on_converted_callee',
